@@ -127,28 +127,23 @@ _RX_VALUE = _pyyaml_regex(TAG_VALUE)
 def ref_resolve_plain(s):
     """Tag an untagged *plain* scalar gets under the documented rules.
 
-    Order follows PyYAML's resolver table (bool, float, int, merge, null,
-    timestamp, value); the float/bool entries are the 1.2 scanners above.
+    Booleans and floats: the YAML 1.2 scanners above.  Everything else is
+    PyYAML's (property C09 says so): its stock resolver table is consulted the
+    way PyYAML does it - the entries registered for the first character, in
+    table order - skipping its own (YAML 1.1) float and bool entries.
     """
     if is_bool12(s):
         return TAG_BOOL
     if is_float12(s) or is_signed_nan(s):
         return TAG_FLOAT
-    if s == '':
-        return TAG_NULL
-    if s in ('!', '&', '*'):
-        # vestigial entry of PyYAML's table (these cannot be plain scalars)
-        return T + 'yaml'
-    if _RX_INT.match(s):
-        return TAG_INT
-    if _RX_MERGE.match(s):
-        return TAG_MERGE
-    if _RX_NULL.match(s):
-        return TAG_NULL
-    if _RX_TS.match(s):
-        return TAG_TS
-    if _RX_VALUE.match(s):
-        return TAG_VALUE
+    table = yaml.resolver.Resolver.yaml_implicit_resolvers
+    cands = list(table.get('' if s == '' else s[0], [])) + list(
+        table.get(None, []))
+    for tag, rx in cands:
+        if tag in (TAG_FLOAT, TAG_BOOL):
+            continue
+        if rx.match(s):
+            return tag
     return TAG_STR
 
 
